@@ -70,6 +70,11 @@ def shape_grl(data):
     return best, longest
 
 
+SALIENCES = [b"2147483647", b"2147483648", b"-2147483648", b"-2147483649", b"9223372036854775807", b"-9223372036854775808", b"9223372036854775808",
+             b"-9223372036854775809", b"0x7fffffff", b"0x80000000", b"-0x80000000", b"-0x80000001", b"-0x8000000000000000", b"0x8000000000000000",
+             b"017777777777", b"-020000000000", b"-01000000000000000000000", b"99999999999999999999", b"-0", b"00", b"1.5", b"1e3", b"\"1\"", b""]
+
+
 def random_bytes(rng, n):
     return bytes(rng.below(256) for _ in range(n))
 
@@ -78,6 +83,20 @@ def mutate(rng, data, kind, others):
     """one structure-aware mutation of a valid input"""
     data = bytearray(data)
     n = len(data)
+    if kind in ("grl", "jsonrule") and rng.chance(0.08):
+        # the salience clause with a boundary value (GRL: after the keyword; JSON: the "salience" member)
+        import re
+        txt = bytes(data)
+        pat = re.compile(rb'(?i)(salience\s+)(-?\s*[0-9][0-9a-fA-FxX]*)') if kind == "grl" else re.compile(rb'("salience"\s*:\s*)(-?[0-9]+)')
+        ms = list(pat.finditer(txt))
+        v = rng.choice(SALIENCES)
+        if ms:
+            mm = rng.choice(ms)
+            return txt[:mm.start(2)] + v + txt[mm.end(2):], "salience"
+        if kind == "grl":
+            mm = re.search(rb'(?i)rule\s+\w+', txt)
+            if mm:
+                return txt[:mm.end()] + b" salience " + v + txt[mm.end():], "salience"
     m = rng.weighted([("bitflip", 4), ("byte", 3), ("insert", 2), ("delete", 2), ("truncate", 3), ("splice", 2), ("number", 3),
                       ("length", 5 if kind == "grb" else 0), ("dup-range", 1), ("nest", 2 if kind != "grb" else 0)])
     if n == 0:
